@@ -131,7 +131,7 @@ CLAIMS = {
            'jointly <= root-sum-square), invariance under physical splitting, and the ghost-clipping norm identities for nn.Linear (2-D, 3-D weight, 3-D bias) and nn.Embedding (optional padding index; the unmasked formula is refuted) for ALL extents '
            'are theorems over the reals. The ghost formulas and the clip factor are tied to the code by pins + integer/binary64 correspondence runs; the property itself is '
            'tested on real GradSampleModules with gradient scales 1e-4..1e3. Partial: per-sample gradients being a function of the sample alone is C01/C15; float rounding inside '
-           'tensor kernels is not modelled.'),
+           'tensor kernels is not modelled. One recorded finding: with a recurrent layer fed by a packed batch that is not length-sorted, one example moves the sum by more than C (row order of C01).'),
  },
  'C03': {
   'technique': 'Coq stage-by-stage theorems on the generated optimizer code plus numeric reading over R; one-step closed-form runs on the real optimizers',
